@@ -208,7 +208,26 @@ def comparable(ptype, raw):
         return False                                   # h11 caps chunk sizes at 20 hex digits
     if m is not None and FRAMING_TRAILER.search(raw, m.end() - 2):
         return False                                   # h11 re-validates framing fields met in a trailer
+    if m is not None and nte:
+        tr = trailer_region(raw[m.end():])
+        if tr is not None and (re.search(rb'(?<!\r)\n', tr) or re.search(rb'\r\n[ \t]', tr)):
+            return False                               # h11 also accepts bare LF / obs-fold inside a trailer section
     return True
+
+
+def trailer_region(body):
+    """the bytes after the last-chunk line of a chunked body (None when the chunks cannot be walked)"""
+    pos = 0
+    while True:
+        i = body.find(b'\r\n', pos)
+        if i < 0: return None
+        mm = SIZE_LINE.fullmatch(body[pos:i])
+        if not mm: return None
+        n = int(mm.group(1), 16)
+        pos = i + 2
+        if n == 0: return body[pos - 2:]
+        pos += n + 2
+        if pos > len(body): return None
 
 
 def h11_message(ptype, raw):
@@ -255,7 +274,7 @@ def py_dechunk(raw):
 
 
 STATS = dict(wf_both_accept=0, wf_both_reject=0, wf_outside_comparable_domain=0,
-             dechunk_all_accept=0, dechunk_all_reject=0, dechunk_h11_lenient_bare_lf=0, dechunk_h11_limits=0)
+             dechunk_all_accept=0, dechunk_all_reject=0, dechunk_h11_lenient_bare_lf=0, dechunk_h11_lenient_obs_fold=0, dechunk_h11_limits=0)
 
 def h11_dechunk(stream):
     """reference decoding of a chunked body by h11: (body, remainder) or None"""
@@ -784,6 +803,8 @@ def oracle(case, out):
                 STATS['dechunk_h11_limits'] += 1
             elif ref is None and re.search(rb'(?<!\r)\n', raw):
                 STATS['dechunk_h11_lenient_bare_lf'] += 1
+            elif ref is None and re.search(rb'\r\n[ \t]', raw):
+                STATS['dechunk_h11_lenient_obs_fold'] += 1
             else:
                 return 'the reference decoders disagree: strict RFC reading %r, h11 %r' % (ref, h)
         else:
